@@ -19,6 +19,7 @@ import Liftbridge.Driver.RecoverDrv
 import Liftbridge.Driver.ProtoDrv
 import Liftbridge.Driver.CodecDrv
 import Liftbridge.Driver.CursorsDrv
+import Liftbridge.Driver.HWReaderDrv
 
 namespace Liftbridge.Driver
 open Liftbridge
@@ -33,6 +34,7 @@ structure St where
   recov : RecSt := {}
   proto : ProtoSt := {}
   cursors : CursorsSt := {}
+  hw : HWSt := {}
 
 def showRes {α} (f : α → String) : Res α → String
   | .ok a => "ok " ++ f a
@@ -69,6 +71,7 @@ def step (st : St) (line : String) : St × String :=
   | "c19" :: rest => (st, c19 rest)
   | "c15" :: rest => (st, c15Step rest)
   | "c17" :: rest => (st, c17 rest)
+  | "c03" :: rest => let (h, out) := hwStep st.hw rest; ({ st with hw := h }, out)
   | "c11" :: rest => let (c, out) := cursorsStep st.cursors rest; ({ st with cursors := c }, out)
   | "codec" :: rest => (st, codecStep rest)
   | "proto" :: rest => let (p, out) := protoStep st.proto rest; ({ st with proto := p }, out)
